@@ -42,7 +42,4 @@ Proof. exact ObjEqMore.obj_eq_refl. Qed.
 Theorem object_equality_ignores_member_order : forall (key val : Type) (keq : forall a b : key, {a = b} + {a <> b}) (veq : val -> val -> bool) a a' b b',
   Permutation a a' -> NoDup (map fst a) -> Permutation b b' -> NoDup (map fst b) ->
   obj_eq key val keq veq a b = obj_eq key val keq veq a' b'.
-Proof.
-  intros key val keq veq a a' b b' Pa Na Pb Nb.
-  rewrite (ObjEqMore.obj_eq_perm_l key val keq veq a a' b Pa Na). exact (ObjEqMore.obj_eq_perm_r key val keq veq a' b b' Pb Nb).
-Qed.
+Proof. exact ObjEqMore.obj_eq_perm. Qed.
